@@ -132,6 +132,27 @@ Qed.
 (* ---------- start-up ---------- *)
 Definition QB (l : list src) (q : list nat) : Prop := Forall (fun j => j < length l) q.
 
+Lemma remove_first_perm x q : mem_nat x q = true -> Permutation q (x :: remove_first x q).
+Proof.
+  induction q as [|y t IH]; cbn; [discriminate|].
+  destruct (Nat.eqb x y) eqn:E; cbn; intro H.
+  - apply Nat.eqb_eq in E. subst. apply Permutation_refl.
+  - eapply perm_trans; [apply perm_skip; apply IH; exact H|apply perm_swap].
+Qed.
+
+Lemma reorder_perm : forall p q, Permutation (reorder q p) q.
+Proof.
+  induction p as [|x p IH]; intro q; cbn; [apply Permutation_refl|].
+  destruct (mem_nat x q) eqn:E; [|apply IH].
+  eapply perm_trans; [apply perm_skip; apply IH|]. apply Permutation_sym. apply remove_first_perm. exact E.
+Qed.
+
+Lemma reorder_length q p : length (reorder q p) = length q.
+Proof. apply Permutation_length. apply reorder_perm. Qed.
+
+Lemma reorder_QB l q p : QB l q -> QB l (reorder q p).
+Proof. unfold QB. intro H. eapply Permutation_Forall; [apply Permutation_sym; apply reorder_perm|exact H]. Qed.
+
 Lemma get_set_same l i s : i < length l -> get_src (set_src l i s) i = s.
 Proof.
   unfold get_src, set_src. revert i. induction l as [|h t IH]; intros i Hi; [cbn in Hi; lia|].
@@ -230,7 +251,7 @@ Qed.
 
 Lemma step_inv : forall ha g x, AInv g -> AInv (fst (step ha g x)).
 Proof.
-  intros ha g x HI. destruct x as [sc| |y a|i v| | |]; cbn [step].
+  intros ha g x HI. destruct x as [sc| |y a p|i v p| | |]; cbn [step].
   - (* Source *)
     unfold AInv in HI. destruct (ast g) eqn:Ea; try exact (eq_ind _ (fun a => match a with ANew => _ | _ => _ end) HI _ (eq_sym Ea));
     try (cbn [fst]; unfold AInv; rewrite Ea; exact HI).
@@ -252,19 +273,19 @@ Proof.
       destruct HC as (H1 & H2 & H3 & H4 & _). cbn [length] in *.
       assert (Hnp : npend (srcs g) = 0).
       { clear - HF. induction (srcs g) as [|s t IH]; [reflexivity|]. inversion HF; subst. cbn. unfold pendb. rewrite H1. cbn. apply IH. exact H2. }
-      pose proof (apply_outcome_inv (mkAgg l q (count g) (aexp g) (ast g) (aret g) (aexn g) (adone g) (aout g) (aerr g || e)) l q (count g) (aexp g) y) as HA.
-      destruct (apply_outcome _ l (agg_loop l q (count g) (aexp g)) y) as [g1 r]. cbn [fst] in *.
-      apply HA; [lia|exact H4].
+      pose proof (apply_outcome_inv (mkAgg l (reorder q p) (count g) (aexp g) (ast g) (aret g) (aexn g) (adone g) (aout g) (aerr g || e)) l (reorder q p) (count g) (aexp g) y) as HA.
+      destruct (apply_outcome _ l (agg_loop l (reorder q p) (count g) (aexp g)) y) as [g1 r]. cbn [fst] in *.
+      apply HA; [rewrite reorder_length; lia|apply reorder_QB; exact H4].
     + (* AYield *)
       destruct HI as (Hc & Hi & Hq).
       destruct (charge (get_src (srcs g) i) a) as [[[s1 b] e]|] eqn:Ec.
       * pose proof (charge_pend _ _ _ _ _ Ec) as [Hp0 Hp1].
         pose proof (npend_set (srcs g) i s1 Hi) as HN. unfold get_src in Hp0. rewrite Hp0, Hp1 in HN.
-        pose proof (apply_outcome_inv g (set_src (srcs g) i s1) (if b then queue g ++ [i] else queue g) (count g) (aexp g) y) as HA.
+        pose proof (apply_outcome_inv g (set_src (srcs g) i s1) (reorder (if b then queue g ++ [i] else queue g) p) (count g) (aexp g) y) as HA.
         destruct (apply_outcome g _ _ y) as [g1 r]. cbn [fst] in *.
         apply HA.
-        { unfold set_src. destruct b; cbn in HN; rewrite ?app_length; cbn; lia. }
-        { unfold QB, set_src. rewrite set_nth_length. destruct b; [apply Forall_app; split; [exact Hq|constructor; [exact Hi|constructor]]|exact Hq]. }
+        { rewrite reorder_length. unfold set_src. destruct b; cbn in HN; rewrite ?app_length; cbn; lia. }
+        { apply reorder_QB. unfold QB, set_src. rewrite set_nth_length. destruct b; [apply Forall_app; split; [exact Hq|constructor; [exact Hi|constructor]]|exact Hq]. }
       * pose proof (apply_outcome_inv g (srcs g) (queue g) (pred (count g)) (Some (-2)%Z) y) as HA.
         destruct (apply_outcome g (srcs g) _ y) as [g1 r]. cbn [fst] in *.
         assert (HA' : AInv g1) by (apply HA; [lia|exact Hq]).
@@ -289,11 +310,11 @@ Proof.
     + (* AWait *)
       destruct HI as (Hc & Hq & Hpos & Ho).
       destruct (aout g) as [y|] eqn:Eo; [|congruence].
-      pose proof (apply_outcome_inv g (set_src (srcs g) i s1) (if b then queue g ++ [i] else queue g) (count g) (aexp g) y) as HA.
+      pose proof (apply_outcome_inv g (set_src (srcs g) i s1) (reorder (if b then queue g ++ [i] else queue g) p) (count g) (aexp g) y) as HA.
       destruct (apply_outcome g _ _ y) as [g1 r]. cbn [fst] in *.
       apply HA.
-      { rewrite Hq. unfold set_src. destruct b; cbn in HN; cbn; lia. }
-      { unfold QB, set_src. rewrite set_nth_length, Hq. destruct b; cbn; [constructor; [exact Hlt|constructor]|constructor]. }
+      { rewrite reorder_length, Hq. unfold set_src. destruct b; cbn in HN; cbn; lia. }
+      { apply reorder_QB. unfold QB, set_src. rewrite set_nth_length, Hq. destruct b; cbn; [constructor; [exact Hlt|constructor]|constructor]. }
     + (* AFinal: impossible *)
       destruct HI as (_ & _ & Hn). pose proof (npend_zero_nth (srcs g) i Hn) as HB. congruence.
     + (* ADying *)
@@ -404,63 +425,91 @@ Proof.
   unfold dj. rewrite filter_app, map_app. cbn. destruct (Nat.eqb i j); cbn; [reflexivity|apply app_nil_r].
 Qed.
 
-(* ---------- exec against src_values ---------- *)
-Lemma exec_values : forall pc gs cur arg,
+(* ---------- what a source yields, from its script and the arguments it receives ----------
+   cur = the body's variable holding the last argument received, arg = the argument of the call that started /
+   last resumed it, fut = the arguments of the resumptions still to come.  (YieldEcho yields cur.) *)
+Fixpoint svals (pc : list instr) (cur arg : Z) (fut : list Z) : list Z :=
+  match pc with
+  | [] => []
+  | IYield v :: t => v :: svals t (hd 0%Z fut) (hd 0%Z fut) (tl fut)
+  | IYieldEcho :: t => cur :: svals t (hd 0%Z fut) (hd 0%Z fut) (tl fut)
+  | IYieldNull :: t => svals t arg arg fut
+  | IThrow _ :: _ => []
+  | IReturn :: _ => []
+  | _ :: t => svals t cur arg fut
+  end.
+
+Lemma svals_noecho : forall pc cur arg fut, has_echo pc = false -> svals pc cur arg fut = src_values pc.
+Proof.
+  induction pc as [|i t IH]; intros cur arg fut H; [reflexivity|].
+  destruct i; cbn in *; try discriminate; try (f_equal; apply IH; exact H); auto.
+Qed.
+
+Lemma exec_svals : forall pc gs cur arg fut,
   match exec pc gs cur arg with
-  | (SYield v, p, _, _, _) => has_echo pc = false -> src_values pc = v :: src_values p /\ has_echo p = false
-  | (SPend _, p, _, _, _) => has_echo pc = false -> src_values pc = src_values p /\ has_echo p = false
-  | (SThrow _, p, _, _, _) => src_values pc = [] /\ p = []
-  | (SRet, p, _, _, _) => src_values pc = [] /\ p = []
+  | (SYield v, p, _, _, _) => svals pc cur arg fut = v :: svals p (hd 0%Z fut) (hd 0%Z fut) (tl fut)
+  | (SPend _, p, _, c, _) => svals pc cur arg fut = svals p c arg fut
+  | (SThrow _, p, _, _, _) => svals pc cur arg fut = [] /\ p = []
+  | (SRet, p, _, _, _) => svals pc cur arg fut = [] /\ p = []
   end.
 Proof.
-  induction pc as [|i t IH]; intros gs cur arg; [unfold exec; cbn; auto|].
-  destruct i; unfold exec; fold exec; cbn [src_values has_echo]; auto.
-  - specialize (IH gs cur arg). destruct (exec t gs cur arg) as [[[[st p] g] c] ev]. destruct st; auto.
+  induction pc as [|i t IH]; intros gs cur arg fut; [unfold exec; cbn; auto|].
+  destruct i; unfold exec; fold exec; cbn [svals]; auto.
+  - specialize (IH gs cur arg fut). destruct (exec t gs cur arg) as [[[[st p] g] c] ev]. destruct st; auto.
   - destruct (Nat.ltb (length gs) max_guards); [|apply IH].
-    specialize (IH (x :: gs) cur arg). destruct (exec t (x :: gs) cur arg) as [[[[st p] g] c] ev]. destruct st; auto.
+    specialize (IH (x :: gs) cur arg fut). destruct (exec t (x :: gs) cur arg) as [[[[st p] g] c] ev]. destruct st; auto.
   - destruct gs as [|x g']; [apply IH|].
-    specialize (IH g' cur arg). destruct (exec t g' cur arg) as [[[[st p] g] c] ev]. destruct st; auto.
-  - specialize (IH gs arg arg). destruct (exec t gs arg arg) as [[[[st p] g] c] ev]. destruct st; auto.
-  - discriminate.
+    specialize (IH g' cur arg fut). destruct (exec t g' cur arg) as [[[[st p] g] c] ev]. destruct st; auto.
+  - specialize (IH gs arg arg fut). destruct (exec t gs arg arg) as [[[[st p] g] c] ev]. destruct st; auto.
   - apply IH.
 Qed.
 
-(* ---------- the per-source invariant ----------
-   V j = src_values of source j's script; D = delivered pairs; l = sources; q = completion queue;
-   yi = the source whose value the consumer currently holds *)
-Definition SrcOK (V : nat -> list Z) (D : list (nat * Z)) (l : list src) (q : list nat) (yi : option nat) (j : nat) : Prop :=
-  let s := get_src l j in
-  has_echo (s_pc s) = false /\
+(* what source state s will still yield, as a function of the arguments of its future resumptions.
+   pre: during the start-up loop the first argument is already known (Some a0) although the source is not started *)
+Definition remf (pre : option Z) (s : src) (fut : list Z) : list Z :=
   match s_bst s with
-  | BInit => ~ In j q /\ yi <> Some j /\ dj D j = [] /\ src_values (s_pc s) = V j /\ s_done s = false /\ s_exn s = None
-  | BYield => exists v, s_ret s = Some v /\ s_done s = false /\ s_exn s = None /\
-                ((In j q /\ yi <> Some j /\ dj D j ++ v :: src_values (s_pc s) = V j) \/
-                 (~ In j q /\ yi = Some j /\ dj D j ++ src_values (s_pc s) = V j))
-  | BPend _ => ~ In j q /\ yi <> Some j /\ dj D j ++ src_values (s_pc s) = V j /\ s_done s = false /\ s_exn s = None
-  | BFinal => (s_done s = true \/ s_exn s <> None) /\ yi <> Some j /\ dj D j = V j
+  | BInit => match pre with
+             | None => svals (s_pc s) (s_cur s) (hd 0%Z fut) (tl fut)
+             | Some a0 => svals (s_pc s) (s_cur s) a0 fut
+             end
+  | BYield => svals (s_pc s) (hd 0%Z fut) (hd 0%Z fut) (tl fut)
+  | BPend _ => svals (s_pc s) (s_cur s) (s_arg s) fut
+  | BFinal => []
   end.
 
-Definition AllOK V D l q yi : Prop := (forall j, j < length l -> SrcOK V D l q yi j) /\ NoDup q /\ QB l q.
+(* ---------- the per-source invariant ----------
+   S j fut = the complete value sequence of source j given the arguments it received so far followed by fut;
+   D = delivered pairs; l = sources; q = completion queue; yi = the source whose value the consumer currently holds *)
+Definition SrcOK (S : nat -> list Z -> list Z) (pre : option Z) (D : list (nat * Z)) (l : list src) (q : list nat) (yi : option nat) (j : nat) : Prop :=
+  let s := get_src l j in
+  match s_bst s with
+  | BInit => ~ In j q /\ yi <> Some j /\ dj D j = [] /\ (forall fut, S j fut = remf pre s fut) /\ s_done s = false /\ s_exn s = None
+  | BYield => exists v, s_ret s = Some v /\ s_done s = false /\ s_exn s = None /\
+                ((In j q /\ yi <> Some j /\ (forall fut, S j fut = dj D j ++ v :: remf pre s fut)) \/
+                 (~ In j q /\ yi = Some j /\ (forall fut, S j fut = dj D j ++ remf pre s fut)))
+  | BPend _ => ~ In j q /\ yi <> Some j /\ (forall fut, S j fut = dj D j ++ remf pre s fut) /\ s_done s = false /\ s_exn s = None
+  | BFinal => (s_done s = true \/ s_exn s <> None) /\ yi <> Some j /\ (forall fut, S j fut = dj D j)
+  end.
+
+Definition AllOK S pre D l q yi : Prop := (forall j, j < length l -> SrcOK S pre D l q yi j) /\ NoDup q /\ QB l q.
 
 (* the loop delivers at most one value and keeps every source accounted for *)
-Lemma loop_ok : forall V l q D c x,
-  AllOK V D l q None ->
+Lemma loop_ok : forall S pre l q D c x,
+  AllOK S pre D l q None ->
   let '(o, q', c', x') := agg_loop l q c x in
   match o with
-  | OYield i v => AllOK V (D ++ [(i, v)]) l q' (Some i)
-  | _ => AllOK V D l q' None
+  | OYield i v => AllOK S pre (D ++ [(i, v)]) l q' (Some i)
+  | _ => AllOK S pre D l q' None
   end.
 Proof.
-  intros V l q. induction q as [|i q IH]; intros D c x (HS & HN & HQ).
+  intros S pre l q. induction q as [|i q IH]; intros D c x (HS & HN & HQ).
   - destruct c; cbn; [destruct x|]; (split; [exact HS|split; [exact HN|exact HQ]]).
   - destruct c as [|c]; cbn [agg_loop]; [destruct x; (split; [exact HS|split; [exact HN|exact HQ]])|].
     apply NoDup_cons_iff in HN. destruct HN as [Hni HN'].
     pose proof (Forall_inv HQ) as Hi. pose proof (Forall_inv_tail HQ) as HQ'. cbn beta in Hi.
-    assert (HS' : AllOK V D l q None -> True) by auto.
-    pose proof (HS i Hi) as Hsi. unfold SrcOK in Hsi. destruct Hsi as [He Hsi].
-    assert (REC : (s_done (get_src l i) = true \/ s_exn (get_src l i) <> None) -> s_bst (get_src l i) = BFinal -> AllOK V D l q None).
+    pose proof (HS i Hi) as Hsi. unfold SrcOK in Hsi.
+    assert (REC : (s_done (get_src l i) = true \/ s_exn (get_src l i) <> None) -> s_bst (get_src l i) = BFinal -> AllOK S pre D l q None).
     { intros _ Hb. split; [|split; auto]. intros j Hj. pose proof (HS j Hj) as Hsj. unfold SrcOK in *.
-      destruct Hsj as [Hej Hsj]. split; [exact Hej|].
       destruct (Nat.eq_dec j i) as [->|Hne]; [rewrite Hb in *; exact Hsj|].
       destruct (s_bst (get_src l j)); auto.
       - destruct Hsj as (Hin & Hy & Hv). repeat split; auto; try apply Hv. intro H. apply Hin. right. exact H.
@@ -468,16 +517,15 @@ Proof.
         exists v. repeat split; auto. left. repeat split; auto. destruct Hin; [congruence|auto].
       - destruct Hsj as (Hin & Hy & Hv). repeat split; auto; try apply Hv. intro H. apply Hin. right. exact H. }
     destruct (s_bst (get_src l i)) eqn:Eb.
-    + (* BInit in the queue: impossible *)
-      destruct Hsi as (Hin & _). exfalso. apply Hin. left. reflexivity.
+    + destruct Hsi as (Hin & _). exfalso. apply Hin. left. reflexivity.
     + (* BYield: delivered *)
       destruct Hsi as (v & Hr & Hd & Hx & [(Hin & Hy & Hv)|(Hin & _)]); [|exfalso; apply Hin; left; reflexivity].
       rewrite Hd, Hx, Hr.
       split; [|split; auto]. intros j Hj. pose proof (HS j Hj) as Hsj. unfold SrcOK in *.
-      destruct Hsj as [Hej Hsj]. split; [exact Hej|]. rewrite dj_snoc.
+      rewrite dj_snoc.
       destruct (Nat.eq_dec j i) as [->|Hne].
       * rewrite Eb, Nat.eqb_refl. exists v. repeat split; auto. right. repeat split; auto.
-        rewrite <- app_assoc. exact Hv.
+        intro fut. rewrite <- app_assoc. apply Hv.
       * assert (Nat.eqb i j = false) by (apply Nat.eqb_neq; congruence). rewrite H.
         destruct (s_bst (get_src l j)); auto.
         -- destruct Hsj as (Hin' & Hy' & Hv'). repeat split; auto; try apply Hv'; [intro H0; apply Hin'; right; exact H0|congruence].
@@ -485,15 +533,13 @@ Proof.
            exists v'. repeat split; auto. left. repeat split; auto; [destruct Hin'; [congruence|auto]|congruence].
         -- destruct Hsj as (Hin' & Hy' & Hv'). repeat split; auto; try apply Hv'; [intro H0; apply Hin'; right; exact H0|congruence].
         -- destruct Hsj as (Hf & Hy' & Hv'). repeat split; auto. congruence.
-    + (* BPend in the queue: impossible *)
-      destruct Hsi as (Hin & _). exfalso. apply Hin. left. reflexivity.
+    + destruct Hsi as (Hin & _). exfalso. apply Hin. left. reflexivity.
     + (* BFinal: retired *)
       destruct Hsi as (Hf & Hy & Hv).
       destruct (s_done (get_src l i)) eqn:Ed; [apply IH; apply REC; auto|].
       destruct (s_exn (get_src l i)) eqn:Ex; [apply IH; apply REC; auto|].
       destruct Hf; [discriminate|congruence].
 Qed.
-
 
 Lemma nodup_snoc (q : list nat) x : NoDup q -> ~ In x q -> NoDup (q ++ [x]).
 Proof.
@@ -504,63 +550,62 @@ Proof.
   - apply IH; auto. intro H. apply Hx. right. exact H.
 Qed.
 
-Lemma srcok_transfer V D l l' q q' yi yi' j :
-  SrcOK V D l q yi j -> get_src l' j = get_src l j -> (In j q' <-> In j q) -> (yi' = Some j <-> yi = Some j) ->
-  SrcOK V D l' q' yi' j.
+Lemma srcok_transfer S S' pre D l l' q q' yi yi' j :
+  SrcOK S pre D l q yi j -> get_src l' j = get_src l j -> (In j q' <-> In j q) -> (yi' = Some j <-> yi = Some j) ->
+  (forall fut, S' j fut = S j fut) ->
+  SrcOK S' pre D l' q' yi' j.
 Proof.
-  unfold SrcOK. intros H Hg Hq Hy. rewrite Hg. destruct H as [He H]. split; [exact He|].
+  unfold SrcOK. intros H Hg Hq Hy HS. rewrite Hg.
   destruct (s_bst (get_src l j)).
-  - tauto.
-  - destruct H as (v & Hr & Hd & Hx & H). exists v. tauto.
-  - tauto.
-  - tauto.
+  - destruct H as (H1 & H2 & H3 & H4 & H5). repeat split; try tauto. intro fut. rewrite HS. apply H4.
+  - destruct H as (v & Hr & Hd & Hx & [(H1 & H2 & H3)|(H1 & H2 & H3)]); exists v; repeat split; auto;
+    [left|right]; repeat split; try tauto; intro fut; rewrite HS; apply H3.
+  - destruct H as (H1 & H2 & H3 & H4). repeat split; try tauto. intro fut. rewrite HS. apply H3.
+  - destruct H as (H1 & H2 & H3). repeat split; try tauto. intro fut. rewrite HS. apply H3.
 Qed.
 
 (* a source that is not queued and not the yielded one runs (from the start, from its yield, or from a completed
    await) until its next stop: it is queued iff its callback fired, and stays accounted for *)
-Lemma fire_ok : forall V D l q yi yi' j0 s_in gs cur arg,
-  (forall j, j < length l -> j <> j0 -> SrcOK V D l q yi j) -> NoDup q -> QB l q ->
+Lemma fire_ok : forall S pre D l q yi yi' j0 s_in gs cur arg,
+  (forall j, j < length l -> j <> j0 -> SrcOK S pre D l q yi j) -> NoDup q -> QB l q ->
   j0 < length l -> ~ In j0 q -> yi' <> Some j0 ->
   (forall j, j <> j0 -> (yi' = Some j <-> yi = Some j)) ->
-  has_echo (s_pc s_in) = false -> s_done s_in = false -> s_exn s_in = None ->
-  dj D j0 ++ src_values (s_pc s_in) = V j0 ->
+  s_done s_in = false -> s_exn s_in = None ->
+  (forall fut, S j0 fut = dj D j0 ++ svals (s_pc s_in) cur arg fut) ->
+  s_arg s_in = arg ->
   let '(s1, b, ev) := src_after s_in (exec (s_pc s_in) gs cur arg) in
-  AllOK V D (set_src l j0 s1) (if b then q ++ [j0] else q) yi'.
+  AllOK S pre D (set_src l j0 s1) (if b then q ++ [j0] else q) yi'.
 Proof.
-  intros V D l q yi yi' j0 s_in gs cur arg HO HN HQ Hj0 Hnin Hy' Hyy He Hd Hx Hv.
-  pose proof (exec_values (s_pc s_in) gs cur arg) as HX.
+  intros S pre D l q yi yi' j0 s_in gs cur arg HO HN HQ Hj0 Hnin Hy' Hyy Hd Hx Hv Harg.
+  assert (HXF : forall fut, _) by (intro fut; exact (exec_svals (s_pc s_in) gs cur arg fut)).
   destruct (exec (s_pc s_in) gs cur arg) as [[[[st p] g] c] ev0].
   assert (OTH : forall s1 (b : bool) j, j < length (set_src l j0 s1) -> j <> j0 ->
-                SrcOK V D (set_src l j0 s1) (if b then q ++ [j0] else q) yi' j).
+                SrcOK S pre D (set_src l j0 s1) (if b then q ++ [j0] else q) yi' j).
   { intros s1 b j Hj Hne. unfold set_src in Hj. rewrite set_nth_length in Hj.
-    apply (srcok_transfer V D l _ q _ yi yi' j (HO j Hj Hne)); [apply get_set_other; exact Hne| |apply Hyy; exact Hne].
+    apply (srcok_transfer S S pre D l _ q _ yi yi' j (HO j Hj Hne)); [apply get_set_other; exact Hne| |apply Hyy; exact Hne|reflexivity].
     destruct b; [|tauto]. split; intro H; [apply in_app_or in H; destruct H as [H|[H|[]]]; [exact H|congruence]|apply in_or_app; left; exact H]. }
   assert (QBS : forall s1 (b : bool), QB (set_src l j0 s1) (if b then q ++ [j0] else q)).
   { intros s1 b. unfold QB, set_src. rewrite set_nth_length. destruct b; [apply Forall_app; split; [exact HQ|constructor; [exact Hj0|constructor]]|exact HQ]. }
   assert (NDS : forall (b : bool), NoDup (if b then q ++ [j0] else q)).
   { intros [|]; [apply nodup_snoc; assumption|assumption]. }
   destruct st as [v|k|e|]; cbn [src_after].
-  - destruct (HX He) as [Hsv Hep].
-    split; [|split; [apply (NDS true)|exact (QBS _ true)]].
+  - split; [|split; [apply (NDS true)|exact (QBS _ true)]].
     intros j Hj. destruct (Nat.eq_dec j j0) as [->|Hne]; [|apply (OTH _ true); assumption].
-    unfold SrcOK. rewrite get_set_same by exact Hj0. cbn. split; [exact Hep|].
+    unfold SrcOK. rewrite get_set_same by exact Hj0. cbn [s_bst s_ret s_done s_exn].
     exists v. repeat split; auto. left. split; [apply in_or_app; right; left; reflexivity|]. split; [exact Hy'|].
-    rewrite <- Hv, Hsv. reflexivity.
-  - destruct (HX He) as [Hsv Hep].
-    split; [|split; [apply (NDS false)|exact (QBS _ false)]].
+    intro fut. rewrite Hv, (HXF fut). reflexivity.
+  - split; [|split; [apply (NDS false)|exact (QBS _ false)]].
     intros j Hj. destruct (Nat.eq_dec j j0) as [->|Hne]; [|apply (OTH _ false); assumption].
-    unfold SrcOK. rewrite get_set_same by exact Hj0. cbn. split; [exact Hep|].
-    repeat split; auto. rewrite <- Hv, Hsv. reflexivity.
-  - destruct HX as [Hsv ->].
-    split; [|split; [apply (NDS true)|exact (QBS _ true)]].
+    unfold SrcOK. rewrite get_set_same by exact Hj0. cbn [s_bst s_ret s_done s_exn].
+    repeat split; auto. intro fut. rewrite Hv, (HXF fut). unfold remf. cbn [s_bst s_pc s_cur s_arg]. rewrite Harg. reflexivity.
+  - split; [|split; [apply (NDS true)|exact (QBS _ true)]].
     intros j Hj. destruct (Nat.eq_dec j j0) as [->|Hne]; [|apply (OTH _ true); assumption].
-    unfold SrcOK. rewrite get_set_same by exact Hj0. cbn. split; [reflexivity|].
-    split; [right; discriminate|]. split; [exact Hy'|]. rewrite <- Hv, Hsv. symmetry. apply app_nil_r.
-  - destruct HX as [Hsv ->].
-    split; [|split; [apply (NDS true)|exact (QBS _ true)]].
+    unfold SrcOK. rewrite get_set_same by exact Hj0. cbn [s_bst s_ret s_done s_exn].
+    split; [right; discriminate|]. split; [exact Hy'|]. intro fut. rewrite Hv. destruct (HXF fut) as [-> _]. apply app_nil_r.
+  - split; [|split; [apply (NDS true)|exact (QBS _ true)]].
     intros j Hj. destruct (Nat.eq_dec j j0) as [->|Hne]; [|apply (OTH _ true); assumption].
-    unfold SrcOK. rewrite get_set_same by exact Hj0. cbn. split; [reflexivity|].
-    split; [left; reflexivity|]. split; [exact Hy'|]. rewrite <- Hv, Hsv. symmetry. apply app_nil_r.
+    unfold SrcOK. rewrite get_set_same by exact Hj0. cbn [s_bst s_ret s_done s_exn].
+    split; [left; reflexivity|]. split; [exact Hy'|]. intro fut. rewrite Hv. destruct (HXF fut) as [-> _]. apply app_nil_r.
 Qed.
 
 (* ---------- start-up: every source is charged once, in order ---------- *)
@@ -569,28 +614,38 @@ Definition NoInit (l : list src) : Prop := forall j, j < length l -> s_bst (get_
 Lemma src_after_not_init s r : let '(s1, _, _) := src_after s r in s_bst s1 <> BInit.
 Proof. destruct r as [[[[st p] g] c] ev]. destruct st; cbn; discriminate. Qed.
 
-Lemma charge_from_ok : forall V n i a l q ev e,
+
+
+(* once no source is un-started any more the start-up argument plays no role *)
+Lemma allok_pre S pre pre' D l q yi : NoInit l -> AllOK S pre D l q yi -> AllOK S pre' D l q yi.
+Proof.
+  intros HNI (HS & HN & HQ). split; [|split; assumption]. intros j Hj. specialize (HS j Hj). specialize (HNI j Hj).
+  unfold SrcOK in *. unfold remf in *. destruct (s_bst (get_src l j)); [congruence|exact HS|exact HS|exact HS].
+Qed.
+
+Lemma charge_from_ok : forall S n i a l q ev e,
   i + n = length l ->
-  AllOK V [] l q None ->
+  AllOK S (Some a) [] l q None ->
   (forall j, i <= j -> j < length l -> s_bst (get_src l j) = BInit) ->
   (forall j, j < i -> s_bst (get_src l j) <> BInit) ->
   let '(l', q', _, _) := charge_from n i a l q ev e in
-  AllOK V [] l' q' None /\ NoInit l'.
+  AllOK S (Some a) [] l' q' None /\ NoInit l'.
 Proof.
-  intros V. induction n as [|n IH]; intros i a l q ev e Hn HA HB HNI.
+  intros S. induction n as [|n IH]; intros i a l q ev e Hn HA HB HNI.
   - cbn. split; [exact HA|]. intros j Hj. apply HNI. lia.
   - cbn [charge_from]. assert (Hi : i < length l) by lia.
     destruct HA as (HS & HN & HQ).
-    pose proof (HS i Hi) as Hsi. unfold SrcOK in Hsi. destruct Hsi as [He Hsi].
+    pose proof (HS i Hi) as Hsi. unfold SrcOK in Hsi.
     pose proof (HB i ltac:(lia) Hi) as Hbi. rewrite Hbi in Hsi.
     destruct Hsi as (Hnin & _ & Hdj & Hsv & Hd & Hx).
+    unfold remf in Hsv. rewrite Hbi in Hsv.
     unfold charge. rewrite Hbi.
-    pose proof (fire_ok V [] l q None None i
+    pose proof (fire_ok S (Some a) [] l q None None i
                  (mkSrc (s_pc (get_src l i)) (s_gds (get_src l i)) (s_cur (get_src l i)) a BInit (s_ret (get_src l i)) (s_exn (get_src l i)) (s_done (get_src l i)))
                  (s_gds (get_src l i)) (s_cur (get_src l i)) a) as HF.
-    cbn [s_pc s_done s_exn] in HF.
-    specialize (HF (fun j Hj _ => HS j Hj) HN HQ Hi Hnin ltac:(discriminate) ltac:(tauto) He Hd Hx).
-    rewrite Hdj in HF. specialize (HF Hsv).
+    cbn [s_pc s_done s_exn s_arg] in HF.
+    specialize (HF (fun j Hj _ => HS j Hj) HN HQ Hi Hnin ltac:(discriminate) ltac:(tauto) Hd Hx).
+    rewrite Hdj in HF. specialize (HF Hsv eq_refl).
     pose proof (src_after_not_init
                  (mkSrc (s_pc (get_src l i)) (s_gds (get_src l i)) (s_cur (get_src l i)) a BInit (s_ret (get_src l i)) (s_exn (get_src l i)) (s_done (get_src l i)))
                  (exec (s_pc (get_src l i)) (s_gds (get_src l i)) (s_cur (get_src l i)) a)) as HNI1.
@@ -604,38 +659,68 @@ Proof.
 Qed.
 
 (* ---------- the run-level invariant ---------- *)
-Definition Pfx (V : nat -> list Z) (D : list (nat * Z)) (n : nat) : Prop :=
-  forall j, j < n -> exists rest, dj D j ++ rest = V j.
+(* the arguments source j received so far, from the log R of (source, argument) receptions *)
+Definition rj (R : list (nat * Z)) (j : nat) : list Z := map snd (filter (fun p => Nat.eqb (fst p) j) R).
 
-Lemma allok_pfx V D l q yi : AllOK V D l q yi -> Pfx V D (length l).
+(* the complete value sequence of source j: its script run with the received arguments followed by fut *)
+Definition Sof (scs : list (list instr)) (R : list (nat * Z)) (j : nat) (fut : list Z) : list Z :=
+  svals (nth j scs []) 0%Z (hd 0%Z (rj R j ++ fut)) (tl (rj R j ++ fut)).
+
+Lemma rj_app R R' j : rj (R ++ R') j = rj R j ++ rj R' j.
+Proof. unfold rj. rewrite filter_app, map_app. reflexivity. Qed.
+
+Lemma Sof_app scs R R' j fut : Sof scs (R ++ R') j fut = Sof scs R j (rj R' j ++ fut).
+Proof. unfold Sof. rewrite rj_app, <- app_assoc. reflexivity. Qed.
+
+Definition all_recv (n : nat) (a : Z) : list (nat * Z) := map (fun j => (j, a)) (seq 0 n).
+
+Lemma rj_all_recv n a j : j < n -> rj (all_recv n a) j = [a].
 Proof.
-  intros (HS & _) j Hj. specialize (HS j Hj). unfold SrcOK in HS. destruct HS as [_ HS].
-  destruct (s_bst (get_src l j)).
-  - destruct HS as (_ & _ & Hd & Hv & _). exists (V j). rewrite Hd. reflexivity.
-  - destruct HS as (v & _ & _ & _ & [(_ & _ & H)|(_ & _ & H)]); eauto.
-  - destruct HS as (_ & _ & H & _). eauto.
-  - destruct HS as (_ & _ & H). exists []. rewrite app_nil_r. exact H.
+  unfold rj, all_recv. intro Hj.
+  assert (H : forall k m, (k <= j < k + m -> map snd (filter (fun p => Nat.eqb (fst p) j) (map (fun j0 => (j0, a)) (seq k m))) = [a]) /\
+                          (~ (k <= j < k + m) -> map snd (filter (fun p => Nat.eqb (fst p) j) (map (fun j0 => (j0, a)) (seq k m))) = [])).
+  { intros k m. revert k. induction m as [|m IH]; intro k; [split; [lia|reflexivity]|].
+    cbn [seq map filter fst]. destruct (Nat.eqb k j) eqn:E.
+    - apply Nat.eqb_eq in E. subst. split; [|lia]. intros _. cbn. f_equal. apply (IH (S j)). lia.
+    - apply Nat.eqb_neq in E. split; intro H; apply (IH (S k)); lia. }
+  apply (H 0 n). lia.
 Qed.
 
-Definition TInv (V : nat -> list Z) (D : list (nat * Z)) (g : agg) : Prop :=
+Lemma rj_single i a j : rj [(i, a)] j = if Nat.eqb i j then [a] else [].
+Proof. unfold rj. cbn. destruct (Nat.eqb i j); reflexivity. Qed.
+
+Definition Pfx (S : nat -> list Z -> list Z) (D : list (nat * Z)) (n : nat) : Prop :=
+  forall j, j < n -> forall fut, exists rest, dj D j ++ rest = S j fut.
+
+Lemma allok_pfx S pre D l q yi : AllOK S pre D l q yi -> Pfx S D (length l).
+Proof.
+  intros (HS & _) j Hj fut. specialize (HS j Hj). unfold SrcOK in HS.
+  destruct (s_bst (get_src l j)).
+  - destruct HS as (_ & _ & Hd & Hv & _). rewrite Hd, Hv. eauto.
+  - destruct HS as (v & _ & _ & _ & [(_ & _ & H)|(_ & _ & H)]); rewrite H; eauto.
+  - destruct HS as (_ & _ & H & _). rewrite H. eauto.
+  - destruct HS as (_ & _ & H). rewrite H. exists []. apply app_nil_r.
+Qed.
+
+Definition TInv (scs : list (list instr)) (R D : list (nat * Z)) (g : agg) : Prop :=
   match ast g with
   | ANew => False
-  | AInit => D = [] /\ AllOK V [] (srcs g) [] None /\ Forall (fun s => s_bst s = BInit) (srcs g)
-  | AYield i => AllOK V D (srcs g) (queue g) (Some i) /\ NoInit (srcs g) /\ i < length (srcs g)
-  | AWait | AFinal => AllOK V D (srcs g) (queue g) None /\ NoInit (srcs g)
-  | ADying | ADead => Pfx V D (length (srcs g))
+  | AInit => R = [] /\ D = [] /\ AllOK (Sof scs []) None [] (srcs g) [] None /\ Forall (fun s => s_bst s = BInit) (srcs g)
+  | AYield i => AllOK (Sof scs R) None D (srcs g) (queue g) (Some i) /\ NoInit (srcs g) /\ i < length (srcs g)
+  | AWait | AFinal => AllOK (Sof scs R) None D (srcs g) (queue g) None /\ NoInit (srcs g)
+  | ADying | ADead => Pfx (Sof scs R) D (length (srcs g))
   end.
 
 Definition dres (r : res) (g1 : agg) : list (nat * Z) :=
   match r, ast g1 with RVal v, AYield i => [(i, v)] | _, _ => [] end.
 
-Lemma apply_outcome_tinv : forall V D g l q c x y,
-  AllOK V D l q None -> NoInit l ->
+Lemma apply_outcome_tinv : forall scs R D g l q c x y,
+  AllOK (Sof scs R) None D l q None -> NoInit l ->
   let '(g1, r) := apply_outcome g l (agg_loop l q c x) y in
-  TInv V (D ++ dres r g1) g1.
+  TInv scs R (D ++ dres r g1) g1.
 Proof.
-  intros V D g l q c x y HA HNI.
-  pose proof (loop_ok V l q D c x HA) as HL.
+  intros scs R D g l q c x y HA HNI.
+  pose proof (loop_ok (Sof scs R) None l q D c x HA) as HL.
   pose proof (agg_loop_acc l q c x) as HC.
   destruct (agg_loop l q c x) as [[[o q'] c'] x'].
   destruct o as [i v| |e|]; unfold apply_outcome, TInv, dres; cbn [ast srcs queue]; rewrite ?app_nil_r; auto.
@@ -644,10 +729,10 @@ Proof.
   destruct HA as (_ & _ & HQ). unfold QB in HQ. rewrite Forall_forall in HQ. apply HQ. exact Hin.
 Qed.
 
-Lemma tinv_pfx V D g : TInv V D g -> Pfx V D (length (srcs g)).
+Lemma tinv_pfx scs R D g : TInv scs R D g -> Pfx (Sof scs R) D (length (srcs g)).
 Proof.
   unfold TInv. destruct (ast g); try tauto.
-  - intros (-> & H & _). eapply allok_pfx. exact H.
+  - intros (-> & -> & H & _). eapply allok_pfx. exact H.
   - intros (H & _). eapply allok_pfx. exact H.
   - intros (H & _). eapply allok_pfx. exact H.
   - intros (H & _). eapply allok_pfx. exact H.
@@ -655,7 +740,21 @@ Qed.
 
 Definition dstep (x : op) (o : obs) (g1 : agg) : list (nat * Z) :=
   match x with
-  | OAccess _ _ | OComplete _ _ => dres (o_res o) g1
+  | OAccess _ _ _ | OComplete _ _ _ => dres (o_res o) g1
+  | _ => []
+  end.
+
+(* which sources receive the argument of op x issued in state g *)
+Definition rstep (ha : bool) (g : agg) (x : op) : list (nat * Z) :=
+  match x with
+  | OAccess y a _ =>
+      if idle g && style_ok ha y then
+        match ast g with
+        | AInit => all_recv (length (srcs g)) a
+        | AYield i => [(i, a)]
+        | _ => []
+        end
+      else []
   | _ => []
   end.
 
@@ -669,65 +768,100 @@ Proof.
   rewrite get_set_other by exact Hne. apply HN. exact Hj.
 Qed.
 
-Lemma finish_destroy_tinv V D g q c : Pfx V D (length (srcs g)) -> TInv V D (fst (finish_destroy g q c)).
+
+
+Lemma finish_destroy_tinv scs R D g q c : Pfx (Sof scs R) D (length (srcs g)) -> TInv scs R D (fst (finish_destroy g q c)).
 Proof. intro H. unfold finish_destroy, TInv. cbn. rewrite map_length. exact H. Qed.
 
-Lemma step_tinv : forall ha V D g x, TInv V D g ->
-  let '(g1, o) := step ha g x in TInv V (D ++ dstep x o g1) g1.
+Lemma allok_perm S pre D l q q' yi : Permutation q q' -> AllOK S pre D l q yi -> AllOK S pre D l q' yi.
 Proof.
-  intros ha V D g x HT.
-  assert (SAME : TInv V (D ++ []) g) by (rewrite app_nil_r; exact HT).
-  pose proof (tinv_pfx V D g HT) as HP.
-  destruct x as [sc| |y a|i v| | |]; cbn [step dstep].
+  intros HP (HS & HN & HQ). split; [|split].
+  - intros j Hj. apply (srcok_transfer S S pre D l l q q' yi yi j (HS j Hj)); try tauto.
+    split; intro H; [eapply Permutation_in; [apply Permutation_sym; exact HP|exact H]|eapply Permutation_in; [exact HP|exact H]].
+  - eapply Permutation_NoDup; [exact HP|exact HN].
+  - unfold QB in *. eapply Permutation_Forall; [exact HP|exact HQ].
+Qed.
+
+Lemma allok_reorder S pre D l q p yi : AllOK S pre D l q yi -> AllOK S pre D l (reorder q p) yi.
+Proof. apply allok_perm. apply Permutation_sym. apply reorder_perm. Qed.
+
+Lemma Sof_other scs R i a j fut : j <> i -> Sof scs (R ++ [(i, a)]) j fut = Sof scs R j fut.
+Proof. intro H. rewrite Sof_app, rj_single. assert (Nat.eqb i j = false) by (apply Nat.eqb_neq; congruence). rewrite H0. reflexivity. Qed.
+
+Lemma Sof_same scs R i a fut : Sof scs (R ++ [(i, a)]) i fut = Sof scs R i (a :: fut).
+Proof. rewrite Sof_app, rj_single, Nat.eqb_refl. reflexivity. Qed.
+
+Lemma step_tinv : forall ha scs R D g x, TInv scs R D g ->
+  let '(g1, o) := step ha g x in TInv scs (R ++ rstep ha g x) (D ++ dstep x o g1) g1.
+Proof.
+  intros ha scs R D g x HT.
+  assert (SAME : TInv scs (R ++ []) (D ++ []) g) by (rewrite !app_nil_r; exact HT).
+  pose proof (tinv_pfx scs R D g HT) as HP.
+  destruct x as [sc| |y a p|i v p| | |]; cbn [step dstep rstep].
   - unfold TInv in HT. destruct (ast g) eqn:Ea; try contradiction; exact SAME.
   - unfold TInv in HT. destruct (ast g) eqn:Ea; try contradiction; exact SAME.
   - (* Access *)
     destruct (idle g && style_ok ha y); [|exact SAME].
     unfold TInv in HT. destruct (ast g) eqn:Ea; try contradiction; try exact SAME.
     + (* AInit *)
-      destruct HT as (-> & HA & HF).
-      pose proof (charge_from_ok V (length (srcs g)) 0 a (srcs g) [] [] false eq_refl HA
+      destruct HT as (-> & -> & (HS0 & HN0 & HQ0) & HF). cbn [app].
+      set (R' := all_recv (length (srcs g)) a).
+      assert (HA : AllOK (Sof scs R') (Some a) [] (srcs g) [] None).
+      { split; [|split; assumption]. intros j Hj. pose proof (HS0 j Hj) as Hs. unfold SrcOK in *.
+        rewrite (forall_init_get (srcs g) j HF) in *. destruct Hs as (H1 & H2 & H3 & H4 & H5 & H6).
+        repeat split; auto. intro fut.
+        change R' with ([] ++ R'). rewrite Sof_app. unfold R'. rewrite rj_all_recv by exact Hj.
+        rewrite H4. unfold remf. rewrite (forall_init_get (srcs g) j HF). reflexivity. }
+      pose proof (charge_from_ok (Sof scs R') (length (srcs g)) 0 a (srcs g) [] [] false eq_refl HA
                     (fun j _ _ => forall_init_get (srcs g) j HF) ltac:(intros; lia)) as HC.
       unfold charge_all. destruct (charge_from (length (srcs g)) 0 a (srcs g) [] [] false) as [[[l q] ev] e].
       destruct HC as [HA' HNI].
-      pose proof (apply_outcome_tinv V [] (mkAgg l q (count g) (aexp g) (ast g) (aret g) (aexn g) (adone g) (aout g) (aerr g || e)) l q (count g) (aexp g) y HA' HNI) as HO.
+      pose proof (apply_outcome_tinv scs R' [] (mkAgg l (reorder q p) (count g) (aexp g) (ast g) (aret g) (aexn g) (adone g) (aout g) (aerr g || e)) l (reorder q p) (count g) (aexp g) y
+                    (allok_reorder _ _ _ _ _ p _ (allok_pre _ _ None _ _ _ _ HNI HA')) HNI) as HO.
       destruct (apply_outcome _ l _ y) as [g1 r]. cbn [o_res]. exact HO.
     + (* AYield *)
       destruct HT as ((HS & HN & HQ) & HNI & Hi).
-      pose proof (HS i Hi) as Hsi. unfold SrcOK in Hsi. destruct Hsi as [He Hsi].
+      pose proof (HS i Hi) as Hsi. unfold SrcOK in Hsi.
       destruct (s_bst (get_src (srcs g) i)) eqn:Eb;
         try (destruct Hsi as (_ & Hy & _); exfalso; apply Hy; reflexivity).
       destruct Hsi as (v0 & Hr & Hd & Hx & [(_ & Hy & _)|(Hnin & _ & Hv)]); [exfalso; apply Hy; reflexivity|].
       unfold charge. rewrite Eb.
-      pose proof (fire_ok V D (srcs g) (queue g) (Some i) None i
+      pose proof (fire_ok (Sof scs (R ++ [(i, a)])) None D (srcs g) (queue g) (Some i) None i
                    (mkSrc (s_pc (get_src (srcs g) i)) (s_gds (get_src (srcs g) i)) a a BYield (s_ret (get_src (srcs g) i)) (s_exn (get_src (srcs g) i)) (s_done (get_src (srcs g) i)))
                    (s_gds (get_src (srcs g) i)) a a) as HF.
-      cbn [s_pc s_done s_exn] in HF.
+      cbn [s_pc s_done s_exn s_arg] in HF.
       assert (Hyy : forall j, j <> i -> (@None nat = Some j <-> Some i = Some j)).
       { intros j Hne. split; intro H; [discriminate|injection H as H; congruence]. }
-      specialize (HF (fun j Hj _ => HS j Hj) HN HQ Hi Hnin ltac:(discriminate) Hyy He Hd Hx Hv).
+      assert (HOTH : forall j, j < length (srcs g) -> j <> i -> SrcOK (Sof scs (R ++ [(i, a)])) None D (srcs g) (queue g) (Some i) j).
+      { intros j Hj Hne. apply (srcok_transfer (Sof scs R) _ None D (srcs g) (srcs g) (queue g) (queue g) (Some i) (Some i) j (HS j Hj)); try tauto.
+        intro fut. apply Sof_other. exact Hne. }
+      assert (Hv' : forall fut, Sof scs (R ++ [(i, a)]) i fut = dj D i ++ svals (s_pc (get_src (srcs g) i)) a a fut).
+      { intro fut. rewrite Sof_same, Hv. unfold remf. rewrite Eb. reflexivity. }
+      specialize (HF HOTH HN HQ Hi Hnin ltac:(discriminate) Hyy Hd Hx Hv' eq_refl).
       pose proof (src_after_not_init
                    (mkSrc (s_pc (get_src (srcs g) i)) (s_gds (get_src (srcs g) i)) a a BYield (s_ret (get_src (srcs g) i)) (s_exn (get_src (srcs g) i)) (s_done (get_src (srcs g) i)))
                    (exec (s_pc (get_src (srcs g) i)) (s_gds (get_src (srcs g) i)) a a)) as HNI1.
       destruct (src_after _ _) as [[s2 b] ev0].
-      pose proof (apply_outcome_tinv V D g (set_src (srcs g) i s2) (if b then queue g ++ [i] else queue g) (count g) (aexp g) y HF
-                    (noinit_set _ _ _ HNI HNI1)) as HO.
+      pose proof (apply_outcome_tinv scs (R ++ [(i, a)]) D g (set_src (srcs g) i s2) (reorder (if b then queue g ++ [i] else queue g) p) (count g) (aexp g) y
+                    (allok_reorder _ _ _ _ _ p _ HF) (noinit_set _ _ _ HNI HNI1)) as HO.
       destruct (apply_outcome g _ _ y) as [g1 r]. cbn [o_res]. exact HO.
     + (* AFinal *)
       cbn [o_res]. unfold dres. destruct (adone g); [destruct (fut_style y)|]; cbn; exact SAME.
   - (* Complete *)
+    rewrite app_nil_r. assert (SAME' : TInv scs R (D ++ []) g) by (rewrite app_nil_r; exact HT). clear SAME.
     unfold TInv in HT.
-    destruct (ast g) eqn:Ea; try contradiction; try exact SAME;
-    (destruct (Nat.ltb i (length (srcs g))) eqn:Hlt; [|exact SAME]); apply Nat.ltb_lt in Hlt;
-    unfold complete_src; (destruct (s_bst (get_src (srcs g) i)) eqn:Eb; try exact SAME).
+    destruct (ast g) eqn:Ea; try contradiction; try exact SAME';
+    (destruct (Nat.ltb i (length (srcs g))) eqn:Hlt; [|exact SAME']); apply Nat.ltb_lt in Hlt;
+    unfold complete_src; (destruct (s_bst (get_src (srcs g) i)) eqn:Eb; try exact SAME').
     + (* AInit: impossible *)
-      destruct HT as (_ & _ & HF). rewrite (forall_init_get _ i HF) in Eb. discriminate.
+      destruct HT as (_ & _ & _ & HF). rewrite (forall_init_get _ i HF) in Eb. discriminate.
     + (* AYield j *)
       destruct HT as ((HS & HN & HQ) & HNI & Hi0).
-      pose proof (HS i Hlt) as Hsi. unfold SrcOK in Hsi. rewrite Eb in Hsi. destruct Hsi as (He & Hnin & Hy & Hv & Hd & Hx).
-      pose proof (fire_ok V D (srcs g) (queue g) (Some i0) (Some i0) i (get_src (srcs g) i)
+      pose proof (HS i Hlt) as Hsi. unfold SrcOK in Hsi. rewrite Eb in Hsi. destruct Hsi as (Hnin & Hy & Hv & Hd & Hx).
+      unfold remf in Hv. rewrite Eb in Hv.
+      pose proof (fire_ok (Sof scs R) None D (srcs g) (queue g) (Some i0) (Some i0) i (get_src (srcs g) i)
                    (s_gds (get_src (srcs g) i)) (s_cur (get_src (srcs g) i)) (s_arg (get_src (srcs g) i))
-                   (fun j Hj _ => HS j Hj) HN HQ Hlt Hnin Hy ltac:(tauto) He Hd Hx Hv) as HF.
+                   (fun j Hj _ => HS j Hj) HN HQ Hlt Hnin Hy ltac:(tauto) Hd Hx Hv eq_refl) as HF.
       pose proof (src_after_not_init (get_src (srcs g) i)
                    (exec (s_pc (get_src (srcs g) i)) (s_gds (get_src (srcs g) i)) (s_cur (get_src (srcs g) i)) (s_arg (get_src (srcs g) i)))) as HNI1.
       destruct (src_after _ _) as [[s2 b] ev0].
@@ -735,23 +869,25 @@ Proof.
       split; [exact HF|]. split; [apply noinit_set; assumption|]. unfold set_src. rewrite set_nth_length. exact Hi0.
     + (* AWait *)
       destruct HT as ((HS & HN & HQ) & HNI).
-      pose proof (HS i Hlt) as Hsi. unfold SrcOK in Hsi. rewrite Eb in Hsi. destruct Hsi as (He & Hnin & Hy & Hv & Hd & Hx).
-      pose proof (fire_ok V D (srcs g) (queue g) None None i (get_src (srcs g) i)
+      pose proof (HS i Hlt) as Hsi. unfold SrcOK in Hsi. rewrite Eb in Hsi. destruct Hsi as (Hnin & Hy & Hv & Hd & Hx).
+      unfold remf in Hv. rewrite Eb in Hv.
+      pose proof (fire_ok (Sof scs R) None D (srcs g) (queue g) None None i (get_src (srcs g) i)
                    (s_gds (get_src (srcs g) i)) (s_cur (get_src (srcs g) i)) (s_arg (get_src (srcs g) i))
-                   (fun j Hj _ => HS j Hj) HN HQ Hlt Hnin Hy ltac:(tauto) He Hd Hx Hv) as HF.
+                   (fun j Hj _ => HS j Hj) HN HQ Hlt Hnin Hy ltac:(tauto) Hd Hx Hv eq_refl) as HF.
       pose proof (src_after_not_init (get_src (srcs g) i)
                    (exec (s_pc (get_src (srcs g) i)) (s_gds (get_src (srcs g) i)) (s_cur (get_src (srcs g) i)) (s_arg (get_src (srcs g) i)))) as HNI1.
       destruct (src_after _ _) as [[s2 b] ev0].
-      destruct (aout g) as [y|]; [|exact SAME].
-      pose proof (apply_outcome_tinv V D g (set_src (srcs g) i s2) (if b then queue g ++ [i] else queue g) (count g) (aexp g) y HF
-                    (noinit_set _ _ _ HNI HNI1)) as HO.
+      destruct (aout g) as [y|]; [|exact SAME'].
+      pose proof (apply_outcome_tinv scs R D g (set_src (srcs g) i s2) (reorder (if b then queue g ++ [i] else queue g) p) (count g) (aexp g) y
+                    (allok_reorder _ _ _ _ _ p _ HF) (noinit_set _ _ _ HNI HNI1)) as HO.
       destruct (apply_outcome g _ _ y) as [g1 r]. cbn [o_res]. exact HO.
     + (* AFinal *)
       destruct HT as ((HS & HN & HQ) & HNI).
-      pose proof (HS i Hlt) as Hsi. unfold SrcOK in Hsi. rewrite Eb in Hsi. destruct Hsi as (He & Hnin & Hy & Hv & Hd & Hx).
-      pose proof (fire_ok V D (srcs g) (queue g) None None i (get_src (srcs g) i)
+      pose proof (HS i Hlt) as Hsi. unfold SrcOK in Hsi. rewrite Eb in Hsi. destruct Hsi as (Hnin & Hy & Hv & Hd & Hx).
+      unfold remf in Hv. rewrite Eb in Hv.
+      pose proof (fire_ok (Sof scs R) None D (srcs g) (queue g) None None i (get_src (srcs g) i)
                    (s_gds (get_src (srcs g) i)) (s_cur (get_src (srcs g) i)) (s_arg (get_src (srcs g) i))
-                   (fun j Hj _ => HS j Hj) HN HQ Hlt Hnin Hy ltac:(tauto) He Hd Hx Hv) as HF.
+                   (fun j Hj _ => HS j Hj) HN HQ Hlt Hnin Hy ltac:(tauto) Hd Hx Hv eq_refl) as HF.
       pose proof (src_after_not_init (get_src (srcs g) i)
                    (exec (s_pc (get_src (srcs g) i)) (s_gds (get_src (srcs g) i)) (s_cur (get_src (srcs g) i)) (s_arg (get_src (srcs g) i)))) as HNI1.
       destruct (src_after _ _) as [[s2 b] ev0].
@@ -765,15 +901,16 @@ Proof.
       * unfold finish_destroy. cbn [fst snd]. unfold dres. cbn [o_res ast]. rewrite app_nil_r.
         unfold TInv. cbn [ast srcs]. rewrite map_length. unfold set_src. rewrite set_nth_length. exact HP.
   - (* Destroy *)
-    destruct (idle g); [|exact SAME].
-    destruct (ast g) eqn:Ea; try exact SAME.
+    rewrite app_nil_r. assert (SAME' : TInv scs R (D ++ []) g) by (rewrite app_nil_r; exact HT). clear SAME.
+    destruct (idle g); [|exact SAME'].
+    destruct (ast g) eqn:Ea; try exact SAME'.
     + rewrite app_nil_r. apply finish_destroy_tinv. exact HP.
     + destruct (drain (queue g) (count g)) as [[q1 c1] bl]. rewrite app_nil_r. destruct bl.
       * unfold TInv. cbn [ast srcs]. exact HP.
-      * apply (finish_destroy_tinv V D (mkAgg (srcs g) q1 c1 (aexp g) ADying (aret g) (aexn g) (adone g) (Some 0%Z) (aerr g)) q1 c1). exact HP.
+      * apply (finish_destroy_tinv scs R D (mkAgg (srcs g) q1 c1 (aexp g) ADying (aret g) (aexn g) (adone g) (Some 0%Z) (aerr g)) q1 c1). exact HP.
     + destruct (drain (queue g) (count g)) as [[q1 c1] bl]. rewrite app_nil_r. destruct bl.
       * unfold TInv. cbn [ast srcs]. exact HP.
-      * apply (finish_destroy_tinv V D (mkAgg (srcs g) q1 c1 (aexp g) ADying (aret g) (aexn g) (adone g) (Some 0%Z) (aerr g)) q1 c1). exact HP.
+      * apply (finish_destroy_tinv scs R D (mkAgg (srcs g) q1 c1 (aexp g) ADying (aret g) (aexn g) (adone g) (Some 0%Z) (aerr g)) q1 c1). exact HP.
   - (* Peek *)
     destruct (idle g); [|exact SAME]. destruct (ast g); exact SAME.
   - exact SAME.
@@ -786,29 +923,36 @@ Fixpoint deliv (ha : bool) (g : agg) (ops : list op) : list (nat * Z) :=
   | x :: t => let '(g1, o) := step ha g x in dstep x o g1 ++ deliv ha g1 t
   end.
 
-Lemma run_tinv : forall ha V ops g D, TInv V D g -> TInv V (D ++ deliv ha g ops) (snd (run_from ha g ops)).
+(* the (source, argument) receptions of a run: the first access hands its argument to every source, every later
+   one to the source whose value was returned last *)
+Fixpoint recvd (ha : bool) (g : agg) (ops : list op) : list (nat * Z) :=
+  match ops with
+  | [] => []
+  | x :: t => rstep ha g x ++ recvd ha (fst (step ha g x)) t
+  end.
+
+Lemma run_tinv : forall ha scs ops g R D, TInv scs R D g ->
+  TInv scs (R ++ recvd ha g ops) (D ++ deliv ha g ops) (snd (run_from ha g ops)).
 Proof.
-  intros ha V. induction ops as [|x ops IH]; intros g D HT.
-  - cbn. rewrite app_nil_r. exact HT.
-  - rewrite run_cons. cbn [snd deliv].
-    pose proof (step_tinv ha V D g x HT) as HS. destruct (step ha g x) as [g1 o]. cbn [fst].
-    rewrite app_assoc. apply IH. exact HS.
+  intros ha scs. induction ops as [|x ops IH]; intros g R D HT.
+  - cbn. rewrite !app_nil_r. exact HT.
+  - rewrite run_cons. cbn [snd deliv recvd].
+    pose proof (step_tinv ha scs R D g x HT) as HS. destruct (step ha g x) as [g1 o]. cbn [fst].
+    rewrite !app_assoc. apply IH. exact HS.
 Qed.
 
 Definition build_state (scs : list (list instr)) : agg :=
   mkAgg (map src0 scs) [] (length scs) None AInit None None false None false.
-Definition Vof (scs : list (list instr)) (j : nat) : list Z := src_values (nth j scs []).
 
 Lemma get_src_map scs j : get_src (map src0 scs) j = src0 (nth j scs []).
 Proof. unfold get_src. change (src0 []) with (src0 (@nil instr)). apply map_nth. Qed.
 
-Lemma build_tinv scs : Forall (fun sc => has_echo sc = false) scs -> TInv (Vof scs) [] (build_state scs).
+Lemma build_tinv scs : TInv scs [] [] (build_state scs).
 Proof.
-  intro HE. unfold TInv, build_state. cbn [ast srcs].
-  split; [reflexivity|]. split.
+  unfold TInv, build_state. cbn [ast srcs].
+  split; [reflexivity|]. split; [reflexivity|]. split.
   - split; [|split; [constructor|constructor]].
-    intros j Hj. rewrite map_length in Hj. unfold SrcOK. rewrite get_src_map. cbn.
-    split. { rewrite Forall_forall in HE. apply HE. apply nth_In. exact Hj. }
+    intros j Hj. unfold SrcOK. rewrite get_src_map. cbn.
     repeat split; auto. discriminate.
   - apply Forall_forall. intros s Hs. apply in_map_iff in Hs. destruct Hs as (sc & <- & _). reflexivity.
 Qed.
@@ -832,18 +976,18 @@ Proof. destruct r as [[[o q] c] x]. destruct o; reflexivity. Qed.
 
 Lemma step_length ha g x : ast g <> ANew -> length (srcs (fst (step ha g x))) = length (srcs g) /\ ast (fst (step ha g x)) <> ANew.
 Proof.
-  intro Hn. destruct x as [sc| |y a|i v| | |]; cbn [step].
+  intro Hn. destruct x as [sc| |y a p|i v p| | |]; cbn [step].
   - destruct (ast g) eqn:Ea; [exfalso; apply Hn; reflexivity|..]; (split; [reflexivity|cbn; rewrite Ea; discriminate]).
   - destruct (ast g) eqn:Ea; [exfalso; apply Hn; reflexivity|..]; (split; [reflexivity|cbn; rewrite Ea; discriminate]).
   - destruct (idle g && style_ok ha y); [|split; [reflexivity|assumption]].
     destruct (ast g) eqn:Ea; try (cbn [fst]; split; [reflexivity|congruence]).
     + unfold charge_all. pose proof (charge_from_length (length (srcs g)) 0 a (srcs g) [] [] false) as HL.
       destruct (charge_from (length (srcs g)) 0 a (srcs g) [] [] false) as [[[l q] ev] e]. cbn [fst] in HL.
-      pose proof (apply_outcome_srcs (mkAgg l q (count g) (aexp g) (ast g) (aret g) (aexn g) (adone g) (aout g) (aerr g || e)) l (agg_loop l q (count g) (aexp g)) y) as HS.
+      pose proof (apply_outcome_srcs (mkAgg l (reorder q p) (count g) (aexp g) (ast g) (aret g) (aexn g) (adone g) (aout g) (aerr g || e)) l (agg_loop l (reorder q p) (count g) (aexp g)) y) as HS.
       destruct (apply_outcome _ l _ y) as [g1 r] eqn:E. cbn [fst] in *. rewrite HS. split; [exact HL|].
-      unfold apply_outcome in E. destruct (agg_loop l q (count g) (aexp g)) as [[[o q'] c'] x']. destruct o; injection E as <- _; discriminate.
+      unfold apply_outcome in E. destruct (agg_loop l _ (count g) (aexp g)) as [[[o q'] c'] x']. destruct o; injection E as <- _; discriminate.
     + destruct (charge (get_src (srcs g) i) a) as [[[s1 b] e]|].
-      * pose proof (apply_outcome_srcs g (set_src (srcs g) i s1) (agg_loop (set_src (srcs g) i s1) (if b then queue g ++ [i] else queue g) (count g) (aexp g)) y) as HS.
+      * pose proof (apply_outcome_srcs g (set_src (srcs g) i s1) (agg_loop (set_src (srcs g) i s1) (reorder (if b then queue g ++ [i] else queue g) p) (count g) (aexp g)) y) as HS.
         destruct (apply_outcome g _ _ y) as [g1 r] eqn:E. cbn [fst] in *. rewrite HS. split; [unfold set_src; apply set_nth_length|].
         unfold apply_outcome in E. destruct (agg_loop _ _ _ _) as [[[o q'] c'] x']. destruct o; injection E as <- _; discriminate.
       * pose proof (apply_outcome_srcs g (srcs g) (agg_loop (srcs g) (queue g) (pred (count g)) (Some (-2)%Z)) y) as HS.
@@ -855,7 +999,7 @@ Proof.
     (destruct (complete_src (get_src (srcs g) i) v) as [[[s1 b] e]|]; [|exact R]);
     try (cbn [fst srcs ast]; split; [unfold set_src; apply set_nth_length|rewrite ?Ea; discriminate]).
     + destruct (aout g) as [y|]; [|exact R].
-      pose proof (apply_outcome_srcs g (set_src (srcs g) i s1) (agg_loop (set_src (srcs g) i s1) (if b then queue g ++ [i] else queue g) (count g) (aexp g)) y) as HS.
+      pose proof (apply_outcome_srcs g (set_src (srcs g) i s1) (agg_loop (set_src (srcs g) i s1) (reorder (if b then queue g ++ [i] else queue g) p) (count g) (aexp g)) y) as HS.
       destruct (apply_outcome g _ _ y) as [g1 r] eqn:E. cbn [fst] in *. rewrite HS. split; [unfold set_src; apply set_nth_length|].
       unfold apply_outcome in E. destruct (agg_loop _ _ _ _) as [[[o q'] c'] x']. destruct o; injection E as <- _; discriminate.
     + destruct (drain (if b then queue g ++ [i] else queue g) (count g)) as [[q1 c1] bl]. destruct bl; cbn [fst finish_destroy srcs ast].
@@ -877,46 +1021,99 @@ Proof.
   rewrite run_cons. cbn [snd]. destruct (step_length ha g x Hn) as [HL HN]. rewrite IH by exact HN. exact HL.
 Qed.
 
-(* C14 per_source_order: whatever the access sequence and the completion schedule, the values delivered from source j,
-   in delivery order, form a prefix of the values source j's script yields *)
-Theorem aggr_per_source_order : forall ha scs ops, Forall (fun sc => has_echo sc = false) scs ->
-  forall j, j < length scs ->
-  exists rest, dj (deliv ha (build_state scs) ops) j ++ rest = src_values (nth j scs []).
+
+
+(* C14 per_source_order (any scripts, with or without arguments): whatever the access sequence and the completion
+   schedule, the values delivered from source j, in delivery order, are a prefix of the value sequence source j's
+   script yields when run with the arguments routed to it so far (followed by any future arguments fut) *)
+Theorem aggr_per_source_order : forall ha scs ops j, j < length scs -> forall fut,
+  exists rest, dj (deliv ha (build_state scs) ops) j ++ rest = Sof scs (recvd ha (build_state scs) ops) j fut.
 Proof.
-  intros ha scs ops HE j Hj.
-  pose proof (run_tinv ha (Vof scs) ops (build_state scs) [] (build_tinv scs HE)) as HT. cbn [app] in HT.
+  intros ha scs ops j Hj fut.
+  pose proof (run_tinv ha scs ops (build_state scs) [] [] (build_tinv scs)) as HT. cbn [app] in HT.
   apply tinv_pfx in HT. rewrite run_length in HT by (cbn; discriminate).
   apply HT. cbn. rewrite map_length. exact Hj.
 Qed.
 
-(* C14 union: when the aggregate has ended, every source's complete value sequence was delivered: each value once,
-   in the source's order *)
-Theorem aggr_union : forall ha scs ops, Forall (fun sc => has_echo sc = false) scs ->
+(* C14 union: when the aggregate has ended, every source's complete value sequence (under the arguments it received)
+   was delivered: each value once, in the source's order *)
+Theorem aggr_union : forall ha scs ops,
   ast (snd (run_from ha (build_state scs) ops)) = AFinal ->
-  forall j, j < length scs ->
-  dj (deliv ha (build_state scs) ops) j = src_values (nth j scs []).
+  forall j, j < length scs -> forall fut,
+  dj (deliv ha (build_state scs) ops) j = Sof scs (recvd ha (build_state scs) ops) j fut.
 Proof.
-  intros ha scs ops HE Hf j Hj.
-  pose proof (run_tinv ha (Vof scs) ops (build_state scs) [] (build_tinv scs HE)) as HT. cbn [app] in HT.
+  intros ha scs ops Hf j Hj fut.
+  pose proof (run_tinv ha scs ops (build_state scs) [] [] (build_tinv scs)) as HT. cbn [app] in HT.
   pose proof (run_inv ha ops (build_state scs) (build_ainv scs)) as HI.
   pose proof (run_length ha ops (build_state scs) ltac:(cbn; discriminate)) as HL. cbn [build_state srcs] in HL. rewrite map_length in HL.
   unfold TInv in HT. unfold AInv in HI. rewrite Hf in HT, HI.
   destruct HT as ((HS & _) & HNI). destruct HI as (_ & Hq & Hnp).
   assert (Hj' : j < length (srcs (snd (run_from ha (build_state scs) ops)))) by lia.
-  pose proof (HS j Hj') as Hs. unfold SrcOK in Hs. destruct Hs as [_ Hs].
+  pose proof (HS j Hj') as Hs. unfold SrcOK in Hs.
   pose proof (HNI j Hj') as Hni. pose proof (npend_zero_nth _ j Hnp) as Hp. unfold pendb in Hp. fold (get_src (srcs (snd (run_from ha (build_state scs) ops))) j) in Hp.
   destruct (s_bst (get_src (srcs (snd (run_from ha (build_state scs) ops))) j)).
   - congruence.
   - destruct Hs as (v & _ & _ & _ & [(Hin & _)|(_ & Hy & _)]); [rewrite Hq in Hin; destruct Hin|discriminate].
   - discriminate.
-  - destruct Hs as (_ & _ & H). exact H.
+  - destruct Hs as (_ & _ & H). symmetry. apply H.
 Qed.
 
+(* scripts that do not echo their argument yield the same values whatever arguments they receive *)
+Lemma Sof_noecho scs R j fut : has_echo (nth j scs []) = false -> Sof scs R j fut = src_values (nth j scs []).
+Proof. intro H. unfold Sof. apply svals_noecho. exact H. Qed.
+
+(* C14 ends_iff_all_ended, if-direction: an accepted access after which every source is finished answers with the end
+   of the sequence (End, or the remembered exception) and leaves the aggregate finished - it neither waits nor yields *)
+Definition all_final (l : list src) : Prop := forall j, j < length l -> s_bst (get_src l j) = BFinal.
+
+Lemma all_final_npend l : all_final l -> npend l = 0.
+Proof.
+  unfold all_final, get_src. induction l as [|s t IH]; intro H; [reflexivity|].
+  cbn. pose proof (H 0 ltac:(cbn; lia)) as H0. cbn in H0. unfold pendb. rewrite H0. cbn.
+  apply IH. intros j Hj. apply (H (S j)). cbn. lia.
+Qed.
+
+Definition terminal_res (r : res) : Prop := match r with RExc _ | REndF | REndT => True | _ => False end.
+
+Theorem aggr_end_if_all_ended : forall ha scs ops y a p,
+  let g := snd (run_from ha (build_state scs) ops) in
+  let '(g1, o) := step ha g (OAccess y a p) in
+  o_st o = 0%Z -> all_final (srcs g1) -> ast g1 = AFinal /\ terminal_res (o_res o).
+Proof.
+  intros ha scs ops y a p g.
+  pose proof (run_tinv ha scs ops (build_state scs) [] [] (build_tinv scs)) as HT. cbn [app] in HT. fold g in HT.
+  pose proof (run_inv ha ops (build_state scs) (build_ainv scs)) as HI. fold g in HI.
+  pose proof (step_tinv ha scs _ _ g (OAccess y a p) HT) as HT1.
+  pose proof (step_inv ha g (OAccess y a p) HI) as HI1.
+  assert (HR : let '(g1, o) := step ha g (OAccess y a p) in o_st o = 0%Z ->
+               ((exists i, ast g1 = AYield i) \/ ast g1 = AWait \/ (ast g1 = AFinal /\ terminal_res (o_res o)))).
+  { assert (AO : forall g0 l r, let '(g1, res) := apply_outcome g0 l r y in
+                 (exists i, ast g1 = AYield i) \/ ast g1 = AWait \/ (ast g1 = AFinal /\ terminal_res res)).
+    { intros g0 l r. destruct r as [[[o q] c] x]. destruct o; cbn; eauto. }
+    cbn [step]. destruct (idle g && style_ok ha y); [|cbn; discriminate].
+    destruct (ast g) eqn:Ea; try (cbn; discriminate).
+    - unfold charge_all. destruct (charge_from _ _ _ _ _ _ _) as [[[l q] ev] e].
+      pose proof (AO (mkAgg l (reorder q p) (count g) (aexp g) (ast g) (aret g) (aexn g) (adone g) (aout g) (aerr g || e)) l (agg_loop l (reorder q p) (count g) (aexp g))) as HF.
+      destruct (apply_outcome _ l _ y) as [g1 r]. cbn [o_res]. intros _. exact HF.
+    - destruct (charge _ _) as [[[s1 b] e]|].
+      + pose proof (AO g (set_src (srcs g) i s1) (agg_loop (set_src (srcs g) i s1) (reorder (if b then queue g ++ [i] else queue g) p) (count g) (aexp g))) as HF.
+        destruct (apply_outcome g _ _ y) as [g1 r]. cbn [o_res]. intros _. exact HF.
+      + pose proof (AO g (srcs g) (agg_loop (srcs g) (queue g) (pred (count g)) (Some (-2)%Z))) as HF.
+        destruct (apply_outcome g _ _ y) as [g1 r]. cbn [o_res ast]. intros _. exact HF.
+    - cbn [o_res]. intros _. right. right. split; [exact Ea|]. destruct (adone g); [destruct (fut_style y)|]; exact I. }
+  destruct (step ha g (OAccess y a p)) as [g1 o]. cbn [fst] in *.
+  intros Hst Hfin. destruct (HR Hst) as [[i Hy]|[Hw|Hf]].
+  - exfalso. unfold TInv in HT1. rewrite Hy in HT1. destruct HT1 as ((HS & _) & _ & Hi).
+    specialize (HS i Hi). unfold SrcOK in HS. rewrite (Hfin i Hi) in HS. destruct HS as (_ & Hyi & _). apply Hyi. reflexivity.
+  - exfalso. unfold AInv in HI1. rewrite Hw in HI1. destruct HI1 as (Hc & _ & Hpos & _).
+    rewrite (all_final_npend _ Hfin) in Hc. lia.
+  - exact Hf.
+Qed.
 (* what is delivered is exactly what the consumer observes: a value answer leaves the aggregate parked at the yield
    of the source it came from *)
 Definition vals_of (ops : list op) (os : list obs) : list Z :=
   flat_map (fun p => match fst p with
-                     | OAccess _ _ | OComplete _ _ => match o_res (snd p) with RVal v => [v] | _ => [] end
+                     | OAccess _ _ _ | OComplete _ _ _ => match o_res (snd p) with RVal v => [v] | _ => [] end
                      | _ => []
                      end) (combine ops os).
 
@@ -925,18 +1122,18 @@ Lemma apply_outcome_val g l r y : let '(g1, res) := apply_outcome g l r y in
 Proof. destruct r as [[[o q] c] x]. destruct o; cbn; intros v0 H; try discriminate. eauto. Qed.
 
 Lemma step_val ha g x : let '(g1, o) := step ha g x in
-  forall v, o_res o = RVal v -> (match x with OAccess _ _ | OComplete _ _ => True | _ => False end) -> exists i, ast g1 = AYield i.
+  forall v, o_res o = RVal v -> (match x with OAccess _ _ _ | OComplete _ _ _ => True | _ => False end) -> exists i, ast g1 = AYield i.
 Proof.
-  destruct x as [sc| |y a|i v| | |]; cbn [step]; try (destruct (step ha g _); intros; contradiction).
+  destruct x as [sc| |y a p|i v p| | |]; cbn [step]; try (destruct (step ha g _); intros; contradiction).
   - destruct (ast g); try destruct (Nat.ltb _ _); cbn; intros; contradiction.
   - destruct (ast g); cbn; intros; contradiction.
   - destruct (idle g && style_ok ha y); [|cbn; intros; discriminate].
     destruct (ast g); try (cbn; intros; discriminate).
     + unfold charge_all. destruct (charge_from _ _ _ _ _ _ _) as [[[l q] ev] e].
-      pose proof (apply_outcome_val (mkAgg l q (count g) (aexp g) (ast g) (aret g) (aexn g) (adone g) (aout g) (aerr g || e)) l (agg_loop l q (count g) (aexp g)) y) as H.
+      pose proof (apply_outcome_val (mkAgg l (reorder q p) (count g) (aexp g) (ast g) (aret g) (aexn g) (adone g) (aout g) (aerr g || e)) l (agg_loop l (reorder q p) (count g) (aexp g)) y) as H.
       destruct (apply_outcome _ l _ y) as [g1 r]. cbn [o_res]. intros v Hv _. eapply H. exact Hv.
     + destruct (charge _ _) as [[[s1 b] e]|].
-      * pose proof (apply_outcome_val g (set_src (srcs g) i s1) (agg_loop (set_src (srcs g) i s1) (if b then queue g ++ [i] else queue g) (count g) (aexp g)) y) as H.
+      * pose proof (apply_outcome_val g (set_src (srcs g) i s1) (agg_loop (set_src (srcs g) i s1) (reorder (if b then queue g ++ [i] else queue g) p) (count g) (aexp g)) y) as H.
         destruct (apply_outcome g _ _ y) as [g1 r]. cbn [o_res]. intros v Hv _. eapply H. exact Hv.
       * pose proof (apply_outcome_val g (srcs g) (agg_loop (srcs g) (queue g) (pred (count g)) (Some (-2)%Z)) y) as H.
         destruct (apply_outcome g _ _ y) as [g1 r]. cbn [o_res ast]. intros v Hv _. eapply H. exact Hv.
@@ -946,7 +1143,7 @@ Proof.
     (destruct (complete_src _ _) as [[[s1 b] e]|]; [|cbn; intros; discriminate]);
     try (cbn; intros; discriminate).
     + destruct (aout g) as [y|]; [|cbn; intros; discriminate].
-      pose proof (apply_outcome_val g (set_src (srcs g) i s1) (agg_loop (set_src (srcs g) i s1) (if b then queue g ++ [i] else queue g) (count g) (aexp g)) y) as H.
+      pose proof (apply_outcome_val g (set_src (srcs g) i s1) (agg_loop (set_src (srcs g) i s1) (reorder (if b then queue g ++ [i] else queue g) p) (count g) (aexp g)) y) as H.
       destruct (apply_outcome g _ _ y) as [g1 r]. cbn [o_res]. intros v0 Hv _. eapply H. exact Hv.
     + destruct (drain _ _) as [[q1 c1] bl]. destruct bl; cbn; intros; discriminate.
   - destruct (idle g); [|cbn; intros; contradiction]. destruct (ast g); try destruct (drain _ _) as [[? ?] []]; cbn; intros; contradiction.
@@ -965,6 +1162,7 @@ Proof.
   (destruct (o_res o) eqn:Er; try reflexivity;
    destruct (HV _ eq_refl I) as [i0 ->]; reflexivity).
 Qed.
+
 
 (* ---------- argument routing ---------- *)
 Definition arg_is (a : Z) (e : event) : Prop := match e with EArg x => x = a | _ => True end.
@@ -985,17 +1183,249 @@ Qed.
 
 (* C14 argument_routing: an access of an aggregate parked at the yield of source i resumes source i and no other
    source, and every argument that source receives during that access is the access's argument *)
-Theorem aggr_argument_routing : forall ha g y a i s1 b e,
+Theorem aggr_argument_routing : forall ha g y a pf i s1 b e,
   ast g = AYield i -> idle g = true -> style_ok ha y = true ->
   charge (get_src (srcs g) i) a = Some (s1, b, e) ->
-  o_ev (snd (step ha g (OAccess y a))) = tag_ev i e /\ Forall (arg_is a) e /\
+  o_ev (snd (step ha g (OAccess y a pf))) = tag_ev i e /\ Forall (arg_is a) e /\
   s_arg s1 = a.
 Proof.
-  intros ha g y a i s1 b e Ha Hi Hs Hc. cbn [step]. rewrite Hi, Hs, Ha. cbn [andb]. rewrite Hc.
+  intros ha g y a pf i s1 b e Ha Hi Hs Hc. cbn [step]. rewrite Hi, Hs, Ha. cbn [andb]. rewrite Hc.
   destruct (apply_outcome g _ _ y) as [g1 r]. cbn [snd o_ev]. split; [reflexivity|].
   unfold charge in Hc. destruct (s_bst (get_src (srcs g) i)); try discriminate.
   - pose proof (exec_arg_events (s_pc (get_src (srcs g) i)) (s_gds (get_src (srcs g) i)) (s_cur (get_src (srcs g) i)) a) as HE.
     destruct (exec _ _ _ _) as [[[[st p] g0] c] ev]. destruct st; cbn in Hc; injection Hc as <- _ <-; split; auto.
   - pose proof (exec_arg_events (s_pc (get_src (srcs g) i)) (s_gds (get_src (srcs g) i)) a a) as HE.
     destruct (exec _ _ _ _) as [[[[st p] g0] c] ev]. destruct st; cbn in Hc; injection Hc as <- _ <-; split; auto; constructor; auto; reflexivity.
+Qed.
+
+(* ---------- RAII balance across all source frames ---------- *)
+Definition ccount (f : event -> bool) (j : nat) (l : list sevent) : nat :=
+  count_ev f (map snd (filter (fun p => Nat.eqb (fst p) j) l)).
+
+Lemma ccount_app f j a b : ccount f j (a ++ b) = ccount f j a + ccount f j b.
+Proof. unfold ccount. rewrite filter_app, map_app. apply count_ev_app. Qed.
+
+Lemma ccount_tag f j i e : ccount f j (tag_ev i e) = if Nat.eqb i j then count_ev f e else 0.
+Proof.
+  unfold ccount, tag_ev. destruct (Nat.eqb i j) eqn:E; induction e as [|x e IH]; cbn [map filter fst snd]; rewrite ?E; cbn [map]; auto.
+  cbn [count_ev]. rewrite IH. reflexivity.
+Qed.
+
+Definition gcount (x : Z) (l : list src) (j : nat) : nat := count_z x (s_gds (get_src l j)).
+
+Lemma src_after_bal x s pc gs cur arg :
+  let '(s1, _, ev) := src_after s (exec pc gs cur arg) in
+  count_ev (is_ctor x) ev + count_z x gs = count_ev (is_dtor x) ev + count_z x (s_gds s1).
+Proof.
+  pose proof (exec_balance x pc gs cur arg) as H.
+  destruct (exec pc gs cur arg) as [[[[st p] g] c] ev]. destruct st; cbn; exact H.
+Qed.
+
+Lemma charge_bal x s a s1 b e : charge s a = Some (s1, b, e) ->
+  count_ev (is_ctor x) e + count_z x (s_gds s) = count_ev (is_dtor x) e + count_z x (s_gds s1).
+Proof.
+  unfold charge. destruct (s_bst s); try discriminate.
+  - intro H. injection H as H.
+    pose proof (src_after_bal x (mkSrc (s_pc s) (s_gds s) (s_cur s) a BInit (s_ret s) (s_exn s) (s_done s)) (s_pc s) (s_gds s) (s_cur s) a) as HB.
+    rewrite H in HB. exact HB.
+  - pose proof (src_after_bal x (mkSrc (s_pc s) (s_gds s) a a BYield (s_ret s) (s_exn s) (s_done s)) (s_pc s) (s_gds s) a a) as HB.
+    destruct (src_after _ _) as [[s2 b2] ev2]. intro H. injection H as <- _ <-. cbn. exact HB.
+Qed.
+
+Lemma complete_bal x s v s1 b e : complete_src s v = Some (s1, b, e) ->
+  count_ev (is_ctor x) e + count_z x (s_gds s) = count_ev (is_dtor x) e + count_z x (s_gds s1).
+Proof.
+  unfold complete_src. destruct (s_bst s); try discriminate.
+  pose proof (src_after_bal x s (s_pc s) (s_gds s) (s_cur s) (s_arg s)) as HB.
+  destruct (src_after _ _) as [[s2 b2] ev2]. intro H. injection H as <- _ <-. cbn. exact HB.
+Qed.
+
+Lemma gcount_set x l i s j : i < length l ->
+  gcount x (set_src l i s) j = if Nat.eqb i j then count_z x (s_gds s) else gcount x l j.
+Proof.
+  intro Hi. unfold gcount. destruct (Nat.eqb i j) eqn:E.
+  - apply Nat.eqb_eq in E. subst. rewrite get_set_same by exact Hi. reflexivity.
+  - apply Nat.eqb_neq in E. rewrite get_set_other by congruence. reflexivity.
+Qed.
+
+(* one source runs: events tagged i, only source i's locals change *)
+Lemma fire_bal x l i s1 e j : i < length l ->
+  count_ev (is_ctor x) e + count_z x (s_gds (get_src l i)) = count_ev (is_dtor x) e + count_z x (s_gds s1) ->
+  ccount (is_ctor x) j (tag_ev i e) + gcount x l j = ccount (is_dtor x) j (tag_ev i e) + gcount x (set_src l i s1) j.
+Proof.
+  intros Hi H. rewrite !ccount_tag, gcount_set by exact Hi. unfold gcount.
+  destruct (Nat.eqb i j) eqn:E; [apply Nat.eqb_eq in E; subst; exact H|lia].
+Qed.
+
+Lemma charge_from_bal x : forall n i a l q ev e j,
+  i + n = length l ->
+  let '(l', _, ev', _) := charge_from n i a l q ev e in
+  ccount (is_ctor x) j ev' + gcount x l j + ccount (is_dtor x) j ev
+  = ccount (is_dtor x) j ev' + gcount x l' j + ccount (is_ctor x) j ev.
+Proof.
+  induction n as [|n IH]; intros i a l q ev e j Hn; [cbn; lia|].
+  cbn [charge_from]. assert (Hi : i < length l) by lia.
+  destruct (charge (get_src l i) a) as [[[s1 b] e1]|] eqn:Ec.
+  - pose proof (fire_bal x l i s1 e1 j Hi (charge_bal x _ _ _ _ _ Ec)) as HF.
+    specialize (IH (S i) a (set_src l i s1) (if b then q ++ [i] else q) (ev ++ tag_ev i e1) e j).
+    unfold set_src in IH at 1. rewrite set_nth_length in IH. specialize (IH ltac:(lia)).
+    destruct (charge_from n (S i) a (set_src l i s1) _ _ e) as [[[l' q'] ev'] e'].
+    rewrite !ccount_app in IH. lia.
+  - specialize (IH (S i) a l q ev true j ltac:(lia)).
+    destruct (charge_from n (S i) a l q ev true) as [[[l' q'] ev'] e']. exact IH.
+Qed.
+
+Lemma destroy_srcs_count x j : forall l k,
+  ccount (is_ctor x) j (destroy_srcs l k) = 0 /\
+  ccount (is_dtor x) j (destroy_srcs l k) = (if Nat.leb k j then gcount x l (j - k) else 0).
+Proof.
+  induction l as [|s t IH]; intros k.
+  - split; [reflexivity|]. cbn [destroy_srcs]. destruct (Nat.leb k j); [|reflexivity]. unfold gcount, get_src. destruct (j - k); reflexivity.
+  - cbn [destroy_srcs]. rewrite !ccount_app, !ccount_tag. destruct (IH (S k)) as [IH1 IH2]. rewrite IH1, IH2.
+    rewrite count_ctor_map, count_dtor_map.
+    destruct (Nat.eqb k j) eqn:E.
+    + apply Nat.eqb_eq in E. subst. rewrite Nat.leb_refl, Nat.sub_diag.
+      assert (Nat.leb (S j) j = false) by (apply Nat.leb_gt; lia). rewrite H. unfold gcount, get_src. cbn. split; lia.
+    + apply Nat.eqb_neq in E. split; [destruct (Nat.leb (S k) j); reflexivity|].
+      destruct (Nat.leb k j) eqn:L.
+      * apply Nat.leb_le in L. assert (Nat.leb (S k) j = true) by (apply Nat.leb_le; lia). rewrite H.
+        unfold gcount, get_src. replace (j - k) with (S (j - S k)) by lia. cbn. lia.
+      * apply Nat.leb_gt in L. assert (Nat.leb (S k) j = false) by (apply Nat.leb_gt; lia). rewrite H. reflexivity.
+Qed.
+
+Lemma finish_destroy_bal x j g q c :
+  let '(g1, o) := finish_destroy g q c in
+  ccount (is_ctor x) j (o_ev o) + gcount x (srcs g) j = ccount (is_dtor x) j (o_ev o) + gcount x (srcs g1) j /\
+  gcount x (srcs g1) j = 0.
+Proof.
+  unfold finish_destroy. cbn [o_ev srcs].
+  destruct (destroy_srcs_count x j (srcs g) 0) as [H1 H2]. rewrite H1, H2. cbn [Nat.leb]. rewrite Nat.sub_0_r.
+  assert (H0 : gcount x (map (fun s => mkSrc (s_pc s) [] (s_cur s) (s_arg s) (s_bst s) (s_ret s) (s_exn s) (s_done s)) (srcs g)) j = 0).
+  { unfold gcount, get_src. clear H1 H2. generalize j. induction (srcs g) as [|s t IH]; intros [|k]; cbn [map nth s_gds count_z src0]; try reflexivity. apply IH. }
+  rewrite H0. split; lia.
+Qed.
+
+Lemma apply_outcome_srcs' g l r y : srcs (fst (apply_outcome g l r y)) = l.
+Proof. apply apply_outcome_srcs. Qed.
+
+Lemma gcount_app_src0 x l sc j : gcount x (l ++ [src0 sc]) j = gcount x l j.
+Proof.
+  unfold gcount, get_src. destruct (Nat.lt_ge_cases j (length l)) as [H|H].
+  - rewrite app_nth1 by exact H. reflexivity.
+  - rewrite app_nth2 by exact H. rewrite (nth_overflow l) by exact H.
+    destruct (j - length l) as [|[|k]]; reflexivity.
+Qed.
+
+(* one step: constructions + live locals before = destructions + live locals after, per source and local id *)
+Lemma step_bal ha g x0 x j : AInv g ->
+  let '(g1, o) := step ha g x0 in
+  ccount (is_ctor x) j (o_ev o) + gcount x (srcs g) j = ccount (is_dtor x) j (o_ev o) + gcount x (srcs g1) j.
+Proof.
+  intro HI.
+  assert (R : ccount (is_ctor x) j (o_ev rejected) + gcount x (srcs g) j = ccount (is_dtor x) j (o_ev rejected) + gcount x (srcs g) j) by reflexivity.
+  destruct x0 as [sc| |y a p|i v p| | |]; cbn [step].
+  - destruct (ast g); try exact R. destruct (Nat.ltb (length (srcs g)) 12); [|exact R].
+    cbn [o_ev srcs]. rewrite gcount_app_src0. reflexivity.
+  - destruct (ast g); first [exact R | reflexivity].
+  - destruct (idle g && style_ok ha y); [|exact R].
+    unfold AInv in HI. destruct (ast g) eqn:Ea; try exact R.
+    + unfold charge_all. pose proof (charge_from_bal x (length (srcs g)) 0 a (srcs g) [] [] false j eq_refl) as HC.
+      destruct (charge_from _ _ _ _ _ _ _) as [[[l q] ev] e].
+      pose proof (apply_outcome_srcs (mkAgg l (reorder q p) (count g) (aexp g) (ast g) (aret g) (aexn g) (adone g) (aout g) (aerr g || e)) l (agg_loop l (reorder q p) (count g) (aexp g)) y) as HS.
+      destruct (apply_outcome _ l _ y) as [g1 r]. cbn [fst o_ev] in *. rewrite HS. cbn in HC. lia.
+    + destruct HI as (_ & Hi & _).
+      destruct (charge (get_src (srcs g) i) a) as [[[s1 b] e]|] eqn:Ec.
+      * pose proof (fire_bal x (srcs g) i s1 e j Hi (charge_bal x _ _ _ _ _ Ec)) as HF.
+        pose proof (apply_outcome_srcs g (set_src (srcs g) i s1) (agg_loop (set_src (srcs g) i s1) (reorder (if b then queue g ++ [i] else queue g) p) (count g) (aexp g)) y) as HS.
+        destruct (apply_outcome g _ _ y) as [g1 r]. cbn [fst o_ev] in *. rewrite HS. exact HF.
+      * pose proof (apply_outcome_srcs g (srcs g) (agg_loop (srcs g) (queue g) (pred (count g)) (Some (-2)%Z)) y) as HS.
+        destruct (apply_outcome g _ _ y) as [g1 r]. cbn [fst o_ev srcs] in *. rewrite HS. reflexivity.
+  - destruct (ast g) eqn:Ea; try exact R;
+    (destruct (Nat.ltb i (length (srcs g))) eqn:Hlt; [|exact R]); apply Nat.ltb_lt in Hlt;
+    (destruct (complete_src (get_src (srcs g) i) v) as [[[s1 b] e]|] eqn:Ec; [|exact R]);
+    pose proof (fire_bal x (srcs g) i s1 e j Hlt (complete_bal x _ _ _ _ _ Ec)) as HF;
+    try (cbn [o_ev srcs]; exact HF).
+    + destruct (aout g) as [y|]; [|exact R].
+      pose proof (apply_outcome_srcs g (set_src (srcs g) i s1) (agg_loop (set_src (srcs g) i s1) (reorder (if b then queue g ++ [i] else queue g) p) (count g) (aexp g)) y) as HS.
+      destruct (apply_outcome g _ _ y) as [g1 r]. cbn [fst o_ev] in *. rewrite HS. exact HF.
+    + destruct (drain _ _) as [[q1 c1] bl]. destruct bl; [cbn [o_ev srcs]; exact HF|].
+      pose proof (finish_destroy_bal x j (mkAgg (set_src (srcs g) i s1) q1 c1 (aexp g) ADying (aret g) (aexn g) (adone g) (aout g) (aerr g)) q1 c1) as HD.
+      destruct (finish_destroy _ q1 c1) as [g1 o]. cbn [o_ev srcs] in *. destruct HD as [HD _].
+      rewrite !ccount_app. lia.
+  - destruct (idle g); [|exact R]. destruct (ast g) eqn:Ea; try exact R.
+    + pose proof (finish_destroy_bal x j g (queue g) (count g)) as HD. destruct (finish_destroy g _ _) as [g1 o]. apply HD.
+    + destruct (drain _ _) as [[q1 c1] bl]. destruct bl; [reflexivity|].
+      pose proof (finish_destroy_bal x j (mkAgg (srcs g) q1 c1 (aexp g) ADying (aret g) (aexn g) (adone g) (Some 0%Z) (aerr g)) q1 c1) as HD.
+      destruct (finish_destroy _ q1 c1) as [g1 o]. apply HD.
+    + destruct (drain _ _) as [[q1 c1] bl]. destruct bl; [reflexivity|].
+      pose proof (finish_destroy_bal x j (mkAgg (srcs g) q1 c1 (aexp g) ADying (aret g) (aexn g) (adone g) (Some 0%Z) (aerr g)) q1 c1) as HD.
+      destruct (finish_destroy _ q1 c1) as [g1 o]. apply HD.
+  - destruct (idle g); [|exact R]. destruct (ast g); first [exact R | reflexivity].
+  - exact R.
+Qed.
+
+Definition all_sevents (os : list obs) : list sevent := flat_map o_ev os.
+
+Lemma run_bal ha x j : forall ops g, AInv g ->
+  ccount (is_ctor x) j (all_sevents (fst (run_from ha g ops))) + gcount x (srcs g) j
+  = ccount (is_dtor x) j (all_sevents (fst (run_from ha g ops))) + gcount x (srcs (snd (run_from ha g ops))) j.
+Proof.
+  induction ops as [|x0 ops IH]; intros g HI; [cbn; lia|].
+  rewrite run_cons. cbn [fst snd all_sevents flat_map]. fold (all_sevents (fst (run_from ha (fst (step ha g x0)) ops))).
+  rewrite !ccount_app.
+  pose proof (step_bal ha g x0 x j HI) as HS. pose proof (step_inv ha g x0 HI) as HI1.
+  destruct (step ha g x0) as [g1 o]. cbn [fst snd] in *. specialize (IH g1 HI1). lia.
+Qed.
+
+(* the dead aggregate holds no live local *)
+Lemma dead_gcount ha x j : forall ops g, AInv g -> (ast g = ADead -> gcount x (srcs g) j = 0) ->
+  ast (snd (run_from ha g ops)) = ADead -> gcount x (srcs (snd (run_from ha g ops))) j = 0.
+Proof.
+  induction ops as [|x0 ops IH]; intros g HI HD; [exact HD|].
+  rewrite run_cons. cbn [snd]. apply IH; [apply step_inv; exact HI|].
+  clear IH. destruct x0 as [sc| |y a p|i v p| | |]; cbn [step].
+  - destruct (ast g) eqn:Ea; try (cbn [fst]; rewrite Ea; exact HD). destruct (Nat.ltb _ _); cbn; [discriminate|rewrite Ea; discriminate].
+  - destruct (ast g) eqn:Ea; try (cbn [fst]; rewrite Ea; exact HD). cbn. discriminate.
+  - destruct (idle g && style_ok ha y); [|exact HD].
+    destruct (ast g) eqn:Ea; try (cbn [fst]; rewrite Ea; exact HD).
+    + unfold charge_all. destruct (charge_from _ _ _ _ _ _ _) as [[[l q] ev] e].
+      destruct (apply_outcome _ l _ y) as [g1 r] eqn:E. cbn [fst]. unfold apply_outcome in E.
+      destruct (agg_loop _ _ _ _) as [[[o q'] c'] x']. destruct o; injection E as <- _; cbn; discriminate.
+    + destruct (charge _ _) as [[[s1 b] e]|]; destruct (apply_outcome g _ _ y) as [g1 r] eqn:E; cbn [fst ast]; unfold apply_outcome in E;
+      destruct (agg_loop _ _ _ _) as [[[o q'] c'] x']; destruct o; injection E as <- _; cbn; discriminate.
+  - destruct (ast g) eqn:Ea; try (cbn [fst]; rewrite Ea; exact HD);
+    (destruct (Nat.ltb i (length (srcs g))); [|cbn [fst]; rewrite Ea; try exact HD; discriminate]);
+    (destruct (complete_src _ _) as [[[s1 b] e]|]; [|cbn [fst]; rewrite Ea; try exact HD; discriminate]);
+    try (cbn; discriminate).
+    + destruct (aout g) as [y|]; [|cbn [fst]; rewrite Ea; discriminate].
+      destruct (apply_outcome g _ _ y) as [g1 r] eqn:E; cbn [fst]; unfold apply_outcome in E.
+      destruct (agg_loop _ _ _ _) as [[[o q'] c'] x']; destruct o; injection E as <- _; cbn; discriminate.
+    + destruct (drain _ _) as [[q1 c1] bl]. destruct bl; [cbn; discriminate|].
+      pose proof (finish_destroy_bal x j (mkAgg (set_src (srcs g) i s1) q1 c1 (aexp g) ADying (aret g) (aexn g) (adone g) (aout g) (aerr g)) q1 c1) as HF.
+      destruct (finish_destroy _ q1 c1) as [g1 o]. cbn [fst]. intros _. apply HF.
+  - destruct (idle g); [|exact HD]. destruct (ast g) eqn:Ea; try (cbn [fst]; rewrite Ea; exact HD).
+    + pose proof (finish_destroy_bal x j g (queue g) (count g)) as HF. destruct (finish_destroy g _ _) as [g1 o]. cbn [fst]. intros _. apply HF.
+    + destruct (drain _ _) as [[q1 c1] bl]. destruct bl; [cbn; discriminate|].
+      pose proof (finish_destroy_bal x j (mkAgg (srcs g) q1 c1 (aexp g) ADying (aret g) (aexn g) (adone g) (Some 0%Z) (aerr g)) q1 c1) as HF.
+      destruct (finish_destroy _ q1 c1) as [g1 o]. cbn [fst]. intros _. apply HF.
+    + destruct (drain _ _) as [[q1 c1] bl]. destruct bl; [cbn; discriminate|].
+      pose proof (finish_destroy_bal x j (mkAgg (srcs g) q1 c1 (aexp g) ADying (aret g) (aexn g) (adone g) (Some 0%Z) (aerr g)) q1 c1) as HF.
+      destruct (finish_destroy _ q1 c1) as [g1 o]. cbn [fst]. intros _. apply HF.
+  - destruct (idle g); [|exact HD]. destruct (ast g) eqn:Ea; cbn [fst]; rewrite ?Ea; try exact HD; discriminate.
+  - exact HD.
+Qed.
+
+(* C14 RAII balance: over any run, for every source j and local id x: constructions = destructions + locals of
+   source j still alive; once the aggregate is destroyed (at a yield with or without in-flight sources, never started,
+   or finished) every constructed local of every source frame has been destroyed exactly as often as constructed *)
+Theorem aggr_raii_balance : forall ha ops j x,
+  let r := run_from ha agg0 ops in
+  ccount (is_ctor x) j (all_sevents (fst r)) = ccount (is_dtor x) j (all_sevents (fst r)) + gcount x (srcs (snd r)) j /\
+  (ast (snd r) = ADead -> ccount (is_ctor x) j (all_sevents (fst r)) = ccount (is_dtor x) j (all_sevents (fst r))).
+Proof.
+  intros ha ops j x r. subst r.
+  pose proof (run_bal ha x j ops agg0 inv0) as HB.
+  assert (H0 : gcount x (srcs agg0) j = 0) by (unfold gcount, get_src; destruct j; reflexivity).
+  rewrite H0 in HB. split; [lia|].
+  intro Hd. pose proof (dead_gcount ha x j ops agg0 inv0 (fun H => ltac:(discriminate H)) Hd) as HG. lia.
 Qed.
